@@ -49,7 +49,10 @@ def generate(seed: int, tier: str = "quick") -> dict:
         {"ubx": 0, "ubxc": 2, "nmea": 1, "rtcm": 6},
         {"ubx": 1, "ubxc": 1, "nmea": 6, "rtcm": 1},
     )
-    frames = common.gen_frames(r_dev, n, cfg, mix=r_cfg.choice(mixes))
+    variant = r_cfg.random() < 0.25  # checksum-valid frames with payloads shorter / longer than defined
+    frames = common.gen_frames(r_dev, n, cfg, mix=r_cfg.choice(mixes), variant_fault=variant)
+    if variant:
+        pre.hit("fault_firmware_variant")
     frames = common.frame_level_faults(r_lnk, frames, pre)
     common.corrupt_preserving(r_lnk, frames, pre, p=r_cfg.choice((0.0, 0.1, 0.3)))
     frames = common.add_noise(r_lnk, frames, pre, p=r_cfg.choice((0.0, 0.15, 0.4)))
